@@ -131,6 +131,13 @@ const SIGMA: [&str; 7] = ["~", "/", "0", "1", "-", "a", "é"];
 pub fn gen(tier: &str, rng: &mut Rng, emit: &mut dyn FnMut(String)) {
     let max = if tier == "thorough" { 6 } else { 5 };
     all_strings(&SIGMA, max, |s| emit(format!("conv {}", hex(s.as_bytes()))));
+    // texts beyond the small scope (every ASCII byte incl. '"', '\\', controls; lengths around powers of two)
+    for s in boundary_texts(tier) {
+        emit(format!("conv {}", hex(format!("/{}", rfc_escape(&s)).as_bytes())));
+        if s.len() < 40 {
+            emit(format!("conv {}", hex(s.as_bytes())));
+        }
+    }
     let n = if tier == "thorough" { 20_000 } else { 2_000 };
     for i in 0..n {
         let mut s = super::token::random_text(rng, if i % 40 == 0 { 2000 } else { 30 });
